@@ -25,7 +25,7 @@ from simcore.sched import SimPool, install_locks, install_pools
 from simcore.world import MUTATING, O, SimWorld, snapshot
 
 FILES = ["f1", "f2", "x.log", "sub/g", "sub/x.log", "sub/deep/h"]
-T0 = 1_000_000_000  # ms
+T0 = 1_000_000_000_000  # ms
 
 
 def gen_doc_pair(rng):
